@@ -9,7 +9,7 @@ from .. import models as M, replay, build
 from ..harness import JobCtx
 
 PROPERTY = 'C16'
-MIR = [('server', 'on'), ('internal', 'on'), ('solver', 'on'), ('rapid_solve', 'on'), ('solver', 'off')]
+MIR = [('server', 'on'), ('internal', 'on'), ('solver', 'on'), ('rapid_solve', 'on'), ('solver', 'off'), ('server', 'off'), ('internal', 'off'), ('rapid_solve', 'off')]
 CRATES = ['server', 'solver', 'rapid_solve']
 ASSUMPTIONS = ['every stage (min-cost-flow solve, improve_depots, local-search solve, transition-search solve, set_next_day_transitions, reassign_end_depots_consistent_with_transitions, evaluate, create_output_json) is an uninterpreted function: the claim is about the wiring only, the stages are the subject of the other properties',
                'printing, timing and hostname look-ups are no-ops', 'two vehicle types',
@@ -73,8 +73,15 @@ def jobs(tier, seed):
     js += [dict(name='MinCostFlowSolver::solve wiring, %d types' % n, func='job_mcf_wiring', kwargs=dict(ntypes=n)) for n in ((2,) if tier == 'quick' else (1, 2, 3))]
     return js
 
-def job_wiring(name, ntypes, entry, crate):
-    TRACE = []
+def job_wiring(name, ntypes, entry, crate, mode='on'):
+    TRACE = []; FIG = {}
+    def figure(which):
+        # cached figures of an uninterpreted stage result: one symbolic integer per distinct term (an uninterpreted function of the term)
+        def m(ex, callee, args):
+            key = which + ':' + repr(norm_term(args[0]))
+            if key not in FIG: FIG[key] = len(FIG)
+            return sym_int(ex, '%s!%d' % (which, FIG[key]), 'i64', -2**40, 2**40)
+        return m
     def uf(nm, keep=None):
         def m(ex, callee, args):
             a = [x for i, x in enumerate(args) if keep is None or i in keep]
@@ -96,6 +103,7 @@ def job_wiring(name, ntypes, entry, crate):
         (r'^solution::schedule::modifications::<impl Schedule>::reassign_end_depots_consistent_with_transitions$', lambda ex, c, a: uf('reassign_end_depots')(ex, c, [stripv(a[0])])),
         (r'^Schedule::set_next_day_transitions$', lambda ex, c, a: uf('set_transitions')(ex, c, [stripv(a[0]), a[1]])),
         (r'^Schedule::next_day_transition_of$', lambda ex, c, a: Ref(Cell(UF('transition_of', [stripv(a[0]), a[1]])))),
+        (r'^Transition::maintenance_violation$', figure('violation')), (r'^Transition::maintenance_counter$', figure('counter')),
         (r'^<Transition as Clone>::clone$', lambda ex, c, a: stripv(a[0])),
         (r'^<ScheduleWithInfo as Clone>::clone$', lambda ex, c, a: stripv(a[0])),
         (r'^(solver::local_search::)?build_local_search_solver$', uf('ls_solver', [])),
@@ -114,10 +122,10 @@ def job_wiring(name, ntypes, entry, crate):
         (r'^(server::)?create_output_json$', lambda ex, c, a: uf('output_json')(ex, c, [stripv(a[0])])),
         (r'^(Schedule::print_.*|Schedule::total_depot_balance_violation|Objective::<.*>::print_objective_value.*|std::io::_print|.*Instant.*|.*elapsed.*|.*as_secs_f32|.*duration_since.*|core::fmt::.*|Arguments.*|<str as ToString>::to_string|std::time::.*|SwapInfo.*)$', m_default),
     ]
-    J = JobCtx(name, [crate, 'solver', 'rapid_solve'], extra_models=models); ex = J.ex; _EX[0] = ex
+    J = JobCtx(name, [crate, 'solver', 'rapid_solve'], mode=mode, extra_models=models); ex = J.ex; _EX[0] = ex
     f = ex.resolve_fn(entry)
     def body():
-        ex.pc_global = []; ex.inputs = {}; del TRACE[:]
+        ex.pc_global = []; ex.inputs = {}; del TRACE[:]; FIG.clear()
         ex.call_fn(f, [UF('input', [])])
         return list(TRACE)
     for pc, r in J.explore(body):
@@ -185,7 +193,13 @@ def confirm(c):
     if c.get('job_func') == 'job_mcf_wiring':
         from ..harness import confirm_on_other_flavour
         return confirm_on_other_flavour('mirsym.obligations.C16', 'job_mcf_wiring', c.get('job_kwargs', {}), c['clause'])
-    return _confirm_native(c)
+    hit, why = _confirm_native(c)
+    if hit or c.get('job_func') != 'job_wiring': return hit, why
+    # the repository's instances may not exercise the branch (e.g. several rotation cycles per type): the wiring itself has no other
+    # native observable, so the obligation is re-decided on the MIR of the other arithmetic flavour before it is reported
+    from ..harness import confirm_on_other_flavour
+    hit2, why2 = confirm_on_other_flavour('mirsym.obligations.C16', 'job_wiring', c.get('job_kwargs', {}), c['clause'])
+    return hit2, why + ' | ' + why2
 def _confirm_native(c):
     """native: server::solve_instance vs the reference composition of the same (real) stages on the repository's instances"""
     out = []
